@@ -15,7 +15,10 @@ keep the unit / value / type of its definition.
 Injection: the first occurrence of a is `a = {?src}`, `{?src}[1:]` or `{?src}[1]` (unit taken from src), then modified.
 Nonlinear: float nodes (scalar, array; defined, declared) in K / Cel / degF (affine, exact Fraction reference) and in
 B / dB / PR (logarithmic; only the exact levels 0, -2, 4 B = 1, 0.01, 10000 PR are written).
-Placements: root; inside a group (indented); group + dotted-path modifications; group re-opened; DIP(env) chain.
+Placements: root; inside a group (indented); group + dotted-path modifications; group re-opened; DIP(env) chain;
+imported (group `bag` imports `{?g.*}` after the modifications: bag.a must be what g.a is at that line); sourced (the
+program is a source FILE, the parsed text is `$source src = <file>` + `bag / {src?g.*}`; families with the custom unit
+are left out: a unit defined in the source file is not demanded to be known to the importing text).
 
 Integer nodes in cm / mm are modified with values (290, -290, 7000, 17000) whose conversion from mm / um is a whole number
 exactly but not in binary floating point.
@@ -258,7 +261,10 @@ def bad_steps(fam):
 
 
 # ------------------------------------------------------------------------------------------------ program construction
-PLACEMENTS = ("root", "group", "dotted", "regroup", "chain")
+PLACEMENTS = ("root", "group", "dotted", "regroup", "chain", "imported", "sourced")
+# imported: node g.a is defined and modified, then group `bag` imports `{?g.*}`: bag.a must be what g.a is at that line
+# sourced:  the same program is a SOURCE file; the parsed text holds only `$source src = <file>` and `bag / {src?g.*}`
+IMPORT_TAIL = [dict(k="group", d=0, name="bag"), dict(k="import", d=1, text="{?g.*}", src="g")]
 
 
 def _mod_line(fam, step, name, d):
@@ -287,6 +293,8 @@ def build(fam, seq, placement="root", bad=None, bad_at=None, constant=False, und
     head = []
     uses_cu = unit == "[cu]" or any(s[2] in ("o1", "o2") and OTHER.get(unit, ("", ""))[("o1", "o2").index(s[2])]
                                     == "[cu]" for s in seq)
+    if uses_cu and placement == "sourced":
+        return None           # not demanded: a custom unit defined in the source file used by the importing text
     if uses_cu:
         head.append(dict(G.CU_LINE))
     head.append(dict(k="def", d=0, name="s", type="int", dims=None, lit=G.lit("1", 1), unit=None))
@@ -312,7 +320,7 @@ def build(fam, seq, placement="root", bad=None, bad_at=None, constant=False, und
     tail = []
     if placement == "root":
         mname, md = "a", 0
-    elif placement in ("dotted", "chain"):
+    elif placement in ("dotted", "chain", "imported", "sourced"):
         mname, md = "g.a", 0
     elif placement == "group":
         # modifications inside the group: they have to come before the sentinel z (which closes the group)
@@ -331,7 +339,7 @@ def build(fam, seq, placement="root", bad=None, bad_at=None, constant=False, und
         # the node is g.a; an untyped assignment to a root-level `a` names an undefined node
         mods.insert(bad_at, dict(k="mod", d=0, name="a", type=None, dims=None, lit=G.lit("3", 3), unit=None))
     elif undefined:
-        mods.insert(bad_at, dict(k="mod", d=md, name=("g.b" if placement in ("dotted", "chain") else "b"), type=None, dims=None,
+        mods.insert(bad_at, dict(k="mod", d=md, name=("g.b" if mname == "g.a" else "b"), type=None, dims=None,
                                  lit=G.lit("3", 3), unit=None))
     if placement == "group":
         z = head.pop()
@@ -344,6 +352,8 @@ def build(fam, seq, placement="root", bad=None, bad_at=None, constant=False, und
                 return None
             return [head + mods[:1], mods[1:]]
         return [head, mods] if mods else [head]
+    if placement in ("imported", "sourced"):
+        return [head + mods + [dict(ln) for ln in IMPORT_TAIL]]
     return [head + tail + mods]
 
 
@@ -529,7 +539,14 @@ def run_case(desc, sh=None, seen=None):
         if sh is not None:
             sh.count("skipped:int-not-integral-after-conversion(not demanded)")
         return None
-    texts = [G.render(p) for p in progs]
+    sourced = desc.get("placement") == "sourced"
+    if sourced:
+        # the program without its import lines is the source file; the parsed text imports g.* from it into `bag`
+        if exp is not None:
+            exp = [p for p in exp if p["path"].startswith("bag.")]
+        texts = [G.render(progs[0][:-len(IMPORT_TAIL)]), "$source src = %s\nbag\n  {src?g.*}"]
+    else:
+        texts = [G.render(p) for p in progs]
     key = "\n----\n".join(texts)
     if seen is not None:
         if key in seen:
@@ -537,7 +554,7 @@ def run_case(desc, sh=None, seen=None):
         seen.add(key)
     sub = desc["sub"]
     fns = function_table(desc["fam"][1]) if sub == "functions" else None
-    got = outcome(G.execute, texts, functions=fns)
+    got = outcome(_execute_sourced, texts) if sourced else outcome(G.execute, texts, functions=fns)
     uses_cu = any(ln["k"] == "unitdef" for ln in whole)
     if got[0] == "err" or uses_cu:
         isolation.tables_restore()
@@ -558,7 +575,9 @@ def run_case(desc, sh=None, seen=None):
             rec = failure(sub, case, G.expected_view(exp), list(got), tags=tags, behaviour=G.error_class(got))
         else:
             diff = G.compare(exp, got[1])
-            if diff == "value-differs":
+            if diff == "value-differs" and desc.get("placement") in ("imported", "sourced"):
+                diff = "imported-value-differs"
+            elif diff == "value-differs":
                 diff = _classify_value(desc, exp, got[1])
             if diff:
                 rec = failure(sub, case, G.expected_view(exp), G.observed_view(got[1]), tags=tags, behaviour=diff)
@@ -579,6 +598,18 @@ def run_case(desc, sh=None, seen=None):
         if rec:
             sh.fail(rec)
     return rec
+
+
+def _execute_sourced(texts):
+    """texts[0] is written to a per-process scratch file, texts[1] % path is parsed"""
+    import os
+    path = G.scratch_file()[:-4] + "-src.dip"
+    with open(path, "w", encoding="utf-8", newline="") as f:
+        f.write(texts[0])
+    try:
+        return G.execute([texts[1] % path])
+    finally:
+        os.remove(path)
 
 
 def _classify_value(desc, exp, obs):
@@ -642,14 +673,14 @@ def _cases(tier, seed, only=None):
         ctx = [((), 0), ((core[0],), 1), ((core[0],), 0), ((core[2 % len(core)],), 1)]
         for bi in range(len(bads)):
             for k, (seq, at) in enumerate(ctx):
-                pls = ["root", PLACEMENTS[1 + (fi + bi + k) % 4]] if tier == "quick" else list(PLACEMENTS)
+                pls = ["root", PLACEMENTS[1 + (fi + bi + k) % 4]] if tier == "quick" else list(PLACEMENTS[:5])
                 for pl in pls:
                     yield fi, dict(sub="negative", fam=F, seq=[list(s) for s in seq], placement=pl, bad=bi, bad_at=at)
         if fam[3] == "def":
             for s in (full if tier == "thorough" else list(dict.fromkeys(core + [(True, "none", "omit")]))):
                 if not final_ok((s,)):
                     continue
-                pls = ["root", PLACEMENTS[1 + fi % 4]] if tier == "quick" else list(PLACEMENTS)
+                pls = ["root", PLACEMENTS[1 + fi % 4]] if tier == "quick" else list(PLACEMENTS[:5])
                 for pl in pls:
                     yield fi, dict(sub="negative", fam=F, seq=[list(s)], placement=pl, constant=True)
                 yield fi, dict(sub="negative", fam=F, seq=[list(core[1 % len(core)]), list(s)], placement="root",
@@ -711,7 +742,7 @@ def _family_size(tier, seed, fi):
     fam = families()[fi]
     a, c = len(steps(fam)), len(steps(fam, core=True))
     full3 = tier == "thorough" or (fi % NWIN == seed % NWIN)
-    return a + a * a + (a ** 3 if full3 else c ** 3) + 4 * (c + c * c) + 400
+    return a + a * a + (a ** 3 if full3 else c ** 3) + 6 * (c + c * c) + 400
 
 
 def plan(tier, seed):
@@ -777,7 +808,7 @@ MANIFEST = dict(
          "none/m/cm/mm/J/custom x scalar/[2] array x definition with normal/falsy/none value or declaration), every "
          "sequence of 1-2 modifications (typed/untyped x 0/negative/positive/false/''/none x unit omitted/same/two "
          "other units; `none <unit>` only as an intermediate step), length 3 over a core alphabet for all families and over the full alphabet for the seed's window "
-         "(1 of 26 windows, chosen by VERIF_SEED; thorough: all windows), five placements (root, group, dotted path, re-opened group, DIP(env) chain) and negative "
+         "(1 of 26 windows, chosen by VERIF_SEED; thorough: all windows), seven placements (root, group, dotted path, re-opened group, DIP(env) chain, local import of the group, import from a source file) and negative "
          "programs (other data type, other dimension, constant, never assigned, undefined node) that must be rejected; "
          "nodes carrying option lists (same / other unit) and conditions so that validation runs; nodes read or "
          "converted by DIP functions of another node; first occurrences defined by (sliced) injection; float scalars "
